@@ -1007,7 +1007,7 @@ def drive(ctx: Ctx, rng):
             _advance_truth_only(app_b, app_a)
             two_step(runs[1], rng)
             for run in runs:
-                sweep(run, rng, per_sensor=5 if ctx.quick else 12, max_bg=3)
+                sweep(run, rng, per_sensor=4 if ctx.quick else 12, max_bg=3)
                 if n == nsteps - 1:
                     if ctx.quick:
                         synthetic(run, rng, 1, lambda i, pi=pi: i % len(plans) == pi)
